@@ -113,9 +113,30 @@ def fingerprint_items():
     return items
 
 
+def interpreter_probes():
+    """Process-wide settings of the interpreter and the standard library that a library call could
+    change and forget to put back (they are state between calls just like a module global)."""
+    import decimal
+    import locale
+    import warnings
+    out = [("sys", "int_max_str_digits", sys.get_int_max_str_digits()),
+           ("sys", "recursionlimit", sys.getrecursionlimit()),
+           ("sys", "switchinterval", sys.getswitchinterval()),
+           ("sys", "trace-or-profile-hooks", (sys.getprofile() is not None)),
+           ("warnings", "filters", tuple((f[0], getattr(f[2], "__name__", str(f[2]))) for f in warnings.filters)),
+           ("decimal", "context", (decimal.getcontext().prec, decimal.getcontext().rounding)),
+           ("locale", "LC_ALL", locale.setlocale(locale.LC_ALL)),
+           ("os", "cwd-and-umask-free", os.getcwd())]
+    return out
+
+
 def foreign_probes():
     """State of other packages that the library is known to touch: pycountry's country database
-    (forcing its lazy load is itself harmless and idempotent)."""
+    (forcing its lazy load is itself harmless and idempotent); plus the interpreter-wide settings."""
+    return _pycountry_probe() + interpreter_probes()
+
+
+def _pycountry_probe():
     try:
         import pycountry
         codes = sorted(c.alpha_2 for c in pycountry.countries)
